@@ -22,6 +22,7 @@ type HistCfg struct {
 	NoDDLAfterStart    bool
 	NoMutations        bool // no UPDATE / DELETE
 	WhereNullable      bool
+	NoWide             bool // never draw tables of 9-129 columns (checks whose caches are too small for their CREATE TABLE)
 }
 
 // StrBudget is the largest string length such that a row holding strings of
@@ -70,10 +71,28 @@ func padToMax(cols []model.Col, row []model.Val) {
 	row[at] = model.Str(strings.Repeat("m", room))
 }
 
-func Columns(t *rapid.T, maxCols int) []model.Col {
-	n := rapid.IntRange(1, maxCols).Draw(t, "ncols")
+// wideCounts: column counts around the sizes at which per-column bitmaps, fixed
+// arrays and one-byte counters end.
+var wideCounts = []int{9, 10, 16, 17, 31, 32, 33, 63, 64, 65, 100, 128, 129}
+
+func Columns(t *rapid.T, maxCols int) []model.Col { return ColumnsW(t, maxCols, false) }
+
+// ColumnsW is Columns with, when wide is set, one table in fourteen of 9-129
+// columns. The column types of such a table are chosen so that a row with a
+// value in every column still fits the row limit.
+func ColumnsW(t *rapid.T, maxCols int, wide bool) []model.Col {
+	isWide := wide && rapid.IntRange(0, 13).Draw(t, "widetable") == 0
+	n := 0
+	if isWide {
+		n = rapid.SampledFrom(wideCounts).Draw(t, "nwide")
+	} else {
+		n = rapid.IntRange(1, maxCols).Draw(t, "ncols")
+	}
 	var cols []model.Col
 	used := map[string]bool{}
+	fixed := 0
+	// (a VARCHAR is counted with 16 bytes of content: the small-domain strings are up to 6 bytes long)
+	cost := map[model.ColType]int{model.TBool: 2, model.TInt: 5, model.TBigInt: 9, model.TVarchar: 21}
 	for i := 0; i < n; i++ {
 		name := Ident(t, "col", colPool)
 		for used[name] {
@@ -81,6 +100,12 @@ func Columns(t *rapid.T, maxCols int) []model.Col {
 		}
 		used[name] = true
 		ct := model.ColType(rapid.IntRange(0, 3).Draw(t, "ctype"))
+		if isWide {
+			if rapid.IntRange(0, 2).Draw(t, "widebool") == 0 || fixed+cost[ct]+2*(n-1-i) > model.MaxRowBytes-12 {
+				ct = model.TBool
+			}
+			fixed += cost[ct]
+		}
 		c := model.Col{Name: name, Type: ct}
 		if ct == model.TVarchar {
 			c.Len = rapid.SampledFrom([]int{1, 10, 32, 255, 400}).Draw(t, "vlen")
@@ -346,7 +371,7 @@ func NextStmt(rt *rapid.T, cfg HistCfg, db *model.DB) (model.Stmt, bool) {
 	var s model.Stmt
 	switch kind {
 	case "create":
-		return CreateStmt(rt, cfg.MaxCols, db), true
+		return createStmt(rt, cfg.MaxCols, db, cfg.MaxCols >= 4 && !cfg.NoWide), true
 	case "insert":
 		t := db.Tables[names[rapid.IntRange(0, len(names)-1).Draw(rt, "tbl")]]
 		n := rapid.SampledFrom(cfg.RowCounts).Draw(rt, "nrows")
@@ -394,6 +419,10 @@ func NextStmt(rt *rapid.T, cfg HistCfg, db *model.DB) (model.Stmt, bool) {
 
 // CreateStmt draws a CREATE TABLE for a table name not yet in db.
 func CreateStmt(rt *rapid.T, maxCols int, db *model.DB) model.Stmt {
+	return createStmt(rt, maxCols, db, false)
+}
+
+func createStmt(rt *rapid.T, maxCols int, db *model.DB, wide bool) model.Stmt {
 	name := Ident(rt, "table", tablePool)
 	if names := db.TableNames(); len(names) > 0 && rapid.IntRange(0, 7).Draw(rt, "casevariant") == 0 {
 		// table names are case-sensitive: "Orders" next to "orders" is another table
@@ -422,7 +451,7 @@ func CreateStmt(rt *rapid.T, maxCols int, db *model.DB) model.Stmt {
 	for i := 0; db.Tables[name] != nil; i++ {
 		name = fmt.Sprintf("%s_%d", name, i)
 	}
-	s := model.Stmt{Kind: "create", Table: name, Cols: Columns(rt, maxCols)}
+	s := model.Stmt{Kind: "create", Table: name, Cols: ColumnsW(rt, maxCols, wide)}
 	s.SQL = RenderStmt(NewStyle(rt), s)
 	return s
 }
